@@ -67,6 +67,11 @@ def gen_history(rng):
             ups = rng.sample(cands, k)
             if op == 'combine_latest' and rng.random() < 0.3:
                 new(op, ups, emit_on=[rng.randrange(k)], emit_on_form='single')      # emit_on = exactly one stream
+            elif op == 'zip' and rng.random() < 0.25:
+                # constants among the arguments: zip(a, 7, b) / zip(a, b, 7).  A constant keeps its place in the delivered tuple
+                # (the property does not say where it goes when inputs come and go; when the tuple becomes shorter than
+                # that place it can only be the last component)
+                new(op, ups, literals=[[rng.randrange(1, k + 1), 7]])
             elif op == 'zip' and rng.random() < 0.5:
                 # maxsize is a back-pressure threshold only: a zip never drops what an input is ahead by
                 new(op, ups, maxsize=rng.choice([1, 1, 2, 3]))
